@@ -12,7 +12,7 @@ from contracts.buffer import UNITS as BUF_UNITS, ENTRY_UNITS, FINISHED, STOPPED
 from contracts.fifo import FeedUnit, FeedUnitNoPre, ConsumerUnit, ConsumerUnitNoPre
 from contracts.c16 import AFeed, AFeedNoPre, AConsumer, AConsumerNoPre
 from contracts.c01 import ParmapperIter, ParmapperIterProcess, EXECUTOR_FRAME
-from contracts.c12 import ThreadRun, ThreadRunNoTarget, ThreadJoin
+from contracts.c12 import ThreadRun, ThreadRunNoTarget, ThreadJoin, ProcJoin, ProcJoinTimeout, CollectResult
 
 
 class FeedUnderStop(FeedUnit):
@@ -68,7 +68,10 @@ class CreditLemma(LemmaUnit):
 
 from contracts.singlelane import UNITS as SL_UNITS      # noqa: E402  (no lost wake-up on the hand-off queue: what 'nothing blocks forever' rests on for every maxsize incl. 1)
 UNITS = list(BUF_UNITS) + list(ENTRY_UNITS) + list(SL_UNITS) + [FeedUnit, FeedUnitNoPre, FeedUnderStop, ConsumerUnit, ConsumerUnitNoPre, AFeed, AFeedNoPre, AFeedUnderStop, AConsumer, AConsumerNoPre,
-                           ParmapperIter, ParmapperIterProcess] + list(EXECUTOR_FRAME) + [ThreadRun, ThreadRunNoTarget, ThreadJoin, CreditLemma]
+                           ParmapperIter, ParmapperIterProcess] + list(EXECUTOR_FRAME) + [ThreadRun, ThreadRunNoTarget, ThreadJoin,
+                           # executor='process': leaving `with executor` joins every pool process, and SpawnProcess.join is what waits for that process's helper threads
+                           # (result collector, which in turn joins the logger thread)
+                           ProcJoin, ProcJoinTimeout, CollectResult, CreditLemma]
 ASSUMPTIONS = (
     'stream elements are not equal to the library\'s FINISHED/STOPPED sentinel strings; user sources and functions return (terminate)',
     'meta-theorem (DESIGN 2.4, not machine-checked): S1/S3/E3 obligations + fair scheduling => nothing blocks forever',
